@@ -66,16 +66,29 @@ def gen(t, tier):
           'meta_size': t.pick([[1, 1], [1, 1], [2, 2]]), 'refresh': t.pick([None, 30, 30, 3600]),
           'fill': t.pick(['#ff0000', 'transparent']), 'coords': coords, 'ops': [], 'frac': t.pick([0.0, 0.4]),
           'ocean': backend == 'file-link' or bool(t.chance(0.15))}
-    if backend == 'file-link' and not any(U.is_ocean_tile(c) for c in coords):
-        # make sure at least one requested tile is a constant-colour one
+    if backend == 'file-link':
+        # make sure at least two requested tiles are constant-colour ones (they share the single-colour files)
         for x in range(n):
-            if U.is_ocean_tile([x, 0, z]):
-                coords.append([x, 0, z])
-                break
+            for y in range(n):
+                if U.is_ocean_tile([x, y, z]) and [x, y, z] not in coords and \
+                        sum(1 for c in coords if U.is_ocean_tile(c)) < 2:
+                    coords.append([x, y, z])
+        sc['refresh'] = t.pick([None, None, 30])
     nops = t.randint(8, 20 if tier == 'quick' else 40)
+    if backend == 'file-link' and t.chance(0.5):
+        # linked single-colour tiles share one file per colour: colour changes of one tile while another tile holds
+        # the other colour are the interesting histories; seed the history with such a skeleton (then random ops)
+        oc = [i for i, c in enumerate(coords) if U.is_ocean_tile(c)]
+        x, y = oc[0], oc[-1]
+        a = t.choice(2)
+        sc['ops'] += [['ocean', a], ['get', y], ['adv', t.pick([1, 2, 10])], ['ocean', 1 - a], ['get', x], ['get', x],
+                      ['adv', t.pick([1, 2, 10])], ['ocean', a], ['purge', x], ['get', x], ['get', x],
+                      ['cond', x, t.pick(['ims', 'inm']), 'previous']]
     for _ in range(nops):
-        k = t.weighted([('get', 5), ('cond', 8), ('adv', 3), ('rewrite', 2 if sc['refresh'] else 0), ('up500', 2),
-                        ('cond_refresh', 2 if sc['refresh'] else 0), ('ocean', 2 if sc['ocean'] else 0)])
+        linked = backend == 'file-link'
+        k = t.weighted([('get', 5), ('cond', 8), ('adv', 3), ('rewrite', (6 if linked else 2) if sc['refresh'] else 0),
+                        ('up500', 1 if linked else 2), ('cond_refresh', 2 if sc['refresh'] else 0),
+                        ('ocean', 5 if linked else (2 if sc['ocean'] else 0)), ('purge', 4 if linked else 1)])
         u = t.choice(len(coords))
         if k == 'get':
             sc['ops'].append(['get', u])
@@ -84,7 +97,7 @@ def gen(t, tier):
                 sc['ops'].append(['cond', u, 'inm', t.pick(['current', 'current', 'previous', 'garbage', 'quoted'])])
             else:
                 sc['ops'].append(['cond', u, 'ims', t.pick(['before', 'equal', 'after', 'after1', 'malformed', 'ancient',
-                                                            'previous', 'previous'])])
+                                                            'previous', 'previous'] + (['previous'] * 6 if linked else []))])
         elif k == 'cond_refresh':
             sc['ops'].append(['cond_refresh', u, t.pick(['inm', 'ims'])])
         elif k == 'adv':
@@ -93,6 +106,8 @@ def gen(t, tier):
             sc['ops'].append(['rewrite', u])
         elif k == 'ocean':
             sc['ops'].append(['ocean', t.choice(2)])
+        elif k == 'purge':
+            sc['ops'].append(['purge', u])
         else:
             sc['ops'].append(['up500', bool(t.choice(2))])
     return sc
@@ -251,7 +266,7 @@ def run(sc, tape):
             app, pc = F.make_app(conf)
             for i, op in enumerate(sc['ops']):
                 what = 'op#%d %r on %s' % (i, op, urls[op[1]][0] + ('?' + urls[op[1]][1][:40] if urls[op[1]][1] else '')
-                                            if op[0] in ('get', 'cond', 'rewrite', 'cond_refresh') else '')
+                                            if op[0] in ('get', 'cond', 'rewrite', 'cond_refresh', 'purge') else '')
                 k = op[0]
                 if k == 'adv':
                     clock.now = float(int(clock.now) + 1) if op[1] == 'boundary' else clock.now + op[1]
@@ -259,6 +274,13 @@ def run(sc, tape):
                     http.fail_code = 500 if op[1] else None
                 elif k == 'ocean':
                     http.ocean = OCEANS[op[1]]
+                elif k == 'purge':
+                    # an operator removes the tile (cleanup); the next request re-creates it
+                    from mapproxy.cache.tile import Tile
+                    tm = [tmx for _, _, tmx in pc.caches['c1'].caches()][0]
+                    tm.cache.remove_tile(Tile(coords[op[1]]))
+                    if hasattr(tm.cache, 'cleanup'):
+                        tm.cache.cleanup()
                 elif k == 'get':
                     st, hd, body, calls = get(op[1])
                     observe(op[1], st, hd, body, calls, what)
